@@ -180,7 +180,8 @@ Section Run.
   Qed.
 
   Definition stopped (r : lsrun) : Prop :=
-    (sstatus (lr_c r) = ST_CONVERGED /\ valid (lr_c r) = true /\ PrimFloat.ltb (gradient_test (lr_c r)) eps = true) \/
+    (sstatus (lr_c r) = ST_CONVERGED /\ valid (lr_c r) = true /\ PrimFloat.ltb (gradient_test (lr_c r)) eps = true /\
+     lr_ok r = true) \/
     (sstatus (lr_c r) = ST_FAILED /\ (lr_ok r = false \/ valid (lr_c r) = false)).
   Definition pgood (r : lsrun) : Prop := valid (lr_p r) = true /\ sstatus (lr_p r) = ST_MAX_ITERS.
   Definition going (r : lsrun) : Prop :=
@@ -254,12 +255,10 @@ Section Run.
       split; [unfold it_fc1, it_gc1; lia|].
       right. left. split; [reflexivity|]. split; [|split; assumption].
       specialize (Dst STOP). rewrite STOP in Dstop. rewrite VD, GT.
-      destruct (it_conv orc cfg st) eqn:CV, (valid (it_c1 orc cfg st)) eqn:V1; cbn [andb] in Dst.
-      + left. repeat split; assumption.
-      + right. split; [exact Dst|right; reflexivity].
-      + right. split; [exact Dst|]. left.
-        destruct (okr (it_r orc cfg st)); [cbn in Dstop; discriminate|reflexivity].
-      + right. split; [exact Dst|right; reflexivity].
+      destruct (it_conv orc cfg st) eqn:CV, (okr (it_r orc cfg st)) eqn:OK, (valid (it_c1 orc cfg st)) eqn:V1;
+        cbn [andb] in Dst; cbn in Dstop; try discriminate Dstop;
+        try (left; repeat split; assumption);
+        right; (split; [exact Dst|]); try (left; reflexivity); right; reflexivity.
     - intros GO. destruct (Dgo GO) as (Ds & Dv & Dok & Dcv).
       destruct (it_ok_probe st Dok) as (N1 & _).
       split; [|cbn [lr_fc lr_gc]; unfold it_fc1, it_gc1; lia].
@@ -404,7 +403,7 @@ Section Theorems.
     let r := ls_solver_run orc cfg fuel x0 in
     let s := ls_result cfg r in
     status_ok (sstatus s) /\
-    (sstatus s = ST_CONVERGED -> valid s = true /\ PrimFloat.ltb (gradient_test s) (lc_eps cfg) = true) /\
+    (sstatus s = ST_CONVERGED -> valid s = true /\ PrimFloat.ltb (gradient_test s) (lc_eps cfg) = true /\ lr_ok r = true) /\
     (sstatus s = ST_FAILED -> s = lr_c r /\ (lr_ok r = false \/ valid s = false)) /\
     (sstatus s = ST_MAX_ITERS ->
        valid s = true /\
@@ -415,9 +414,9 @@ Section Theorems.
     destruct F as (_ & _ & K). subst s. unfold status_ok, stopped, going, pgood in *.
     destruct (result_cases r) as [(E & W)|(E & W1 & W2 & W3)]; rewrite E.
     - destruct K as [(X & _ & _ & S)|[(X & S & P)|[(X & (G1 & G2 & G3 & G4 & G5) & _)|(X & (G1 & G2 & G3 & G4 & G5))]]].
-      + destruct S as [(S1 & S2 & S3)|(S1 & S2)]; rewrite S1; unfold ST_CONVERGED, ST_FAILED, ST_MAX_ITERS;
+      + destruct S as [(S1 & S2 & S3 & S4)|(S1 & S2)]; rewrite S1; unfold ST_CONVERGED, ST_FAILED, ST_MAX_ITERS;
           repeat split; auto; try discriminate; try (intros; congruence).
-      + destruct S as [(S1 & S2 & S3)|(S1 & S2)]; rewrite S1; unfold ST_CONVERGED, ST_FAILED, ST_MAX_ITERS;
+      + destruct S as [(S1 & S2 & S3 & S4)|(S1 & S2)]; rewrite S1; unfold ST_CONVERGED, ST_FAILED, ST_MAX_ITERS;
           repeat split; auto; try discriminate; try (intros; congruence).
         intros NB NI. destruct W as [W|[W|W]]; [congruence|congruence|exact W].
       + rewrite G2. unfold ST_CONVERGED, ST_FAILED, ST_MAX_ITERS; repeat split; auto; try discriminate.
@@ -611,26 +610,26 @@ Section Decrease.
       split; [exact FF|]. intros _. split; apply fin_leb_refl; exact FF.
   Qed.
 
-  (* the returned value is not larger than the starting value unless the run failed or a failed line search happened to
-     end on a point that passes the gradient test *)
+  (* the returned value is not larger than the starting value unless the run failed (after repo commit 85997bc a failed line
+     search can no longer end in `converged`) *)
   Lemma lsloop_not_worse fuel :
     let r := ls_solver_run orc cfg fuel x0 in
     let s := ls_result cfg r in
-    lr_irreg r = false ->
-    (sstatus s = ST_MAX_ITERS \/ (sstatus s = ST_CONVERGED /\ lr_ok r = true)) ->
+    lr_irreg r = false -> sstatus s <> ST_FAILED ->
     PrimFloat.leb (sfx s) f0 = true.
   Proof.
-    intros r s IR ST. pose proof (drun fuel) as D. fold r in D. destruct (D IR) as (Dp & Dc).
-    pose proof (lsloop_status orc cfg Hmaxit fuel x0) as (_ & SC & _ & SM & _). fold r in SC, SM. fold s in SC, SM.
+    intros r s IR NF. pose proof (drun fuel) as D. fold r in D. destruct (D IR) as (Dp & Dc).
+    pose proof (lsloop_status orc cfg Hmaxit fuel x0) as (SO & SC & _ & SM & _). fold r in SO, SC, SM. fold s in SO, SC, SM.
     destruct (run_fin orc cfg Hmaxit fuel x0) as ((_ & _ & K) & _). fold r in K.
+    assert (ST : sstatus s = ST_MAX_ITERS \/ sstatus s = ST_CONVERGED) by (destruct SO as [X|[X|X]]; auto; contradiction).
     subst s. destruct (result_cases cfg r) as [(E & W)|(E & W)]; rewrite E in *.
-    - destruct ST as [S|(S & OK)].
+    - destruct ST as [S|S].
       + destruct (SM S) as (V & X). apply Dc; [|exact V].
         unfold going, stopped in K.
         destruct K as [(X1 & _ & _ & [(S1 & _)|(S1 & _)])|[(X1 & [(S1 & _)|(S1 & _)] & _)|[(X1 & (_ & _ & G3 & _) & _)|(X1 & (_ & _ & G3 & _))]]];
           try exact G3; rewrite S1 in S; discriminate S.
-      + destruct (SC S) as (V & _). apply Dc; assumption.
-    - destruct ST as [S|(S & OK)].
+      + destruct (SC S) as (V & _ & OK). apply Dc; assumption.
+    - destruct ST as [S|S].
       + destruct (SM S) as (V & _). apply Dp. exact V.
       + destruct (SC S) as (V & _). apply Dp. exact V.
   Qed.
